@@ -102,6 +102,15 @@ def run(chk):
 
     def kconst(t, v):
         return isinstance(t, T) and t.is_const() and t.val == v
+
+    def fbits(variant, field):
+        """width of a state field as declared (a counter may be usize or a narrower integer)"""
+        for v in prog.adt(tn.TS)["variants"]:
+            if v["name"] == variant:
+                for f in v["fields"]:
+                    if f["name"] == field and f["ty"][0] == "int":
+                        return f["ty"][1] or 64
+        return 64
     toggled = tm.unop("not", bit0)
     # ---- guard: delay > 0
     for vn in tn.variants:
@@ -178,12 +187,13 @@ def run(chk):
                 chk.check(ok, key + "/pilot", "block with flag %s 0x00 starts with %s, delay %s, level %s, byte %s; documented Pilot{%d}, %d T, high" % (
                     "==" if is0 else "!=", stt, dl, bit, byte, n, PILOT))
             elif vn == "Pilot":
-                n0 = tm.sym("S.Pilot.pulses_left", 64)
-                last = c04.cc_decide(r, tm.cmp("eq", tm.binop("sub", n0, K(1, 64)), K(0, 64)))
+                nb_ = fbits("Pilot", "pulses_left")
+                n0 = tm.sym("S.Pilot.pulses_left", nb_)
+                last = c04.cc_decide(r, tm.cmp("eq", tm.binop("sub", n0, K(1, nb_)), K(0, nb_)))
                 if last:
                     ok = stt[0] == "Sync" and kconst(dl, S1) and bit is toggled
                 else:
-                    ok = stt[0] == "Pilot" and tm.equiv(stt[1], tm.binop("sub", n0, K(1, 64))) is True and kconst(dl, PILOT) and bit is toggled
+                    ok = stt[0] == "Pilot" and tm.equiv(stt[1], tm.binop("sub", n0, K(1, nb_))) is True and kconst(dl, PILOT) and bit is toggled
                 chk.check(last is not None and ok, key + "/pulse", "pilot pulse (last: %s): -> %s, %s T, level %s" % (last, stt, dl, bit))
             elif vn == "Sync":
                 chk.check(stt[0] == "NextBit" and kconst(stt[1], 0x80) and kconst(dl, S2) and bit is toggled, key,
@@ -213,14 +223,17 @@ def run(chk):
                     "0" if zero else "1", stt, dl, bit))
             elif vn == "BitHalf":
                 m0 = tm.sym("S.BitHalf.mask", 8)
-                d0 = tm.sym("S.BitHalf.half_bit_delay", 64)
+                db_ = fbits("BitHalf", "half_bit_delay")
+                d0 = tm.sym("S.BitHalf.half_bit_delay", db_)
+                if db_ != 64:
+                    d0 = tm.zext(d0, 64)
                 m1 = tm.binop("lshr", m0, K(1, 8))
                 done = c04.cc_decide(r, tm.cmp("eq", m1, K(0, 8)))
                 if done:
                     ok = stt[0] == "NextByte"
                 else:
                     ok = stt[0] == "NextBit" and tm.equiv(stt[1], m1) is True
-                chk.check(done is not None and ok and dl is d0 and bit is toggled, key + "/second-half",
+                chk.check(done is not None and ok and (dl is d0 or (isinstance(dl, T) and tm.equiv(dl, d0) is True)) and bit is toggled, key + "/second-half",
                           "second half pulse -> %s, %s T, level %s; documented same length, mask >> 1" % (stt, dl, bit))
             elif vn == "Pause":
                 chk.check(stt[0] == "Play" and kconst(dl, PAUSE) and bit is toggled, key, "pause -> %s, %s T" % (stt, dl))
